@@ -73,6 +73,7 @@ bool ops_module(Ctx &c, Toks const &t, std::string const &rest)
   if (op == "m.opt") {
     std::string const &k = t[1];
     if (k == "tf_same") p->tf_same_step = i_of(t[2]) != 0;
+    else if (k == "tfloop") p->tf_loop = i_of(t[2]) != 0;
     else if (k == "cell") p->set_cell(f_of(t[2]), f_of(t[3]), f_of(t[4]));
     else if (k == "temp") p->set_target_temperature(f_of(t[2]));
     else if (k == "dt") p->set_integration_timestep(f_of(t[2]));
